@@ -15,8 +15,12 @@ def run(ctx, factor):
                 "once or several times), several uses per macro, definitions split between the rule file and 0-2 extra "
                 "macro files; compiled regex of the macro rule must equal that of the original (inlined) rule on the "
                 "real code; the macro definitions are deep-compared before/after expansion; expanded tree vs the model's")
-    for _ in range(ctx.budget(500, 8000) * factor):
+    REGEXY = [r"%r[abcd]x\b", r"0x\d+", r"a\\b", r"\w+q", r"%[re]?[abcd][xl]", r"\$0x[0-9a-f]{2}", r"x\.y", r"r\d\d?d"]
+    for it in range(ctx.budget(500, 8000) * factor):
         doc = gen_rules.rule(g, {"ops", "logic", "times", "ops_logic", "not", "deref"}, depth=2)
+        if it % 9 == 0:
+            # names are regular-expression fragments: a macro body may hold backslash escapes, and must be inserted verbatim
+            doc = {"pattern": [{g.pick(["mov", "add", r"j\w+"]): [g.pick(REGEXY) for _ in range(g.int(1, 3))]} for _ in range(g.int(1, 2))]}
         mdoc, files, forms = gen_macros.factor(g, doc)
         if not forms:
             continue
